@@ -112,6 +112,297 @@ def _outside(fn, inner):
     return [n for n in ast.walk(fn) if id(n) not in inside]
 
 
+# ------------------------------------------------------------------ round 4: state that survives a call
+#
+# input_writes  number of statements, in every function a fit / prediction runs through (all of
+#               model/fitter.py and util/pooling.py; `predict` / `predict_rdm` / `fit` / `to_dict` of the model
+#               classes; `_parse_nan_vectors`; `get_v` / `pairwise_contrast_sparse`; `RDMs.get_vectors` /
+#               `get_matrices` / `subsample_pattern` / `__getitem__` / `copy`), that store into (a view of) an
+#               argument or into `self`: subscript / attribute stores, augmented assignments, `del`,
+#               mutating method calls, `out=`.  `x.get_vectors()`, `model.rdm_obj`, `np.asarray(x)` ... count
+#               as views of `x`; the analysis is flow-insensitive (a name that ever held a view stays one).
+#               0 on a tree whose fitters leave their arguments alone.
+# module_state  number of places where those functions could keep something between calls: module-level
+#               statements of fitter.py / pooling.py / model.py other than imports, definitions and the
+#               docstring; statements in the class bodies of model.py other than methods; `global` /
+#               `nonlocal`; decorators; mutable default arguments; stores through a name that is neither local
+#               to the function nor to an enclosing function (module dictionaries, function attributes).
+# Both fail closed (an unreadable file or a missing function is underivable).
+
+_VIEW_METHODS = {'transpose', 'reshape', 'swapaxes', 'view', 'ravel', 'squeeze', 'items', 'values', 'keys',
+                 'get', 'flat', 'predict', 'get_vectors', 'T', 'flatten_view'}
+_VIEW_FUNCS = {'np.asarray', 'np.asanyarray', 'np.transpose', 'np.swapaxes', 'np.reshape', 'np.squeeze',
+               'np.ravel', 'np.atleast_1d', 'np.atleast_2d', 'np.atleast_3d', 'np.expand_dims',
+               'np.diagonal', 'np.broadcast_to', 'np.ascontiguousarray', 'np.asfortranarray', 'np.triu',
+               'enumerate', 'zip', 'iter', 'reversed', '_parse_nan_vectors'}
+_MUTATORS = {'sort', 'fill', 'resize', 'put', 'itemset', 'setfield', 'partition', 'append', 'extend',
+             'insert', 'remove', 'pop', 'popitem', 'clear', 'update', 'setdefault', 'reverse', 'setflags',
+             'sort_by', 'reorder', '__setitem__', '__setattr__', '__delitem__'}
+_MUT_FUNCS = {'np.copyto', 'np.put', 'np.put_along_axis', 'np.putmask', 'np.place', 'np.fill_diagonal',
+              'setattr', 'delattr', 'np.divide.at', 'np.add.at', 'np.subtract.at'}
+_SCALAR_PARAMS = {'method', 'pattern_descriptor', 'ridge_weight', 'normalize', 'n_cond', 'name', 'by'}
+_OK_DECORATORS = {'staticmethod', 'classmethod', 'property'}
+WRITE_SITES = []
+STATE_SITES = []
+
+
+def _is_alias(e, alias):
+    if isinstance(e, ast.Name):
+        return e.id in alias
+    if isinstance(e, (ast.Attribute, ast.Subscript, ast.Starred)):
+        return _is_alias(e.value, alias)
+    if isinstance(e, ast.Call):
+        if isinstance(e.func, ast.Attribute) and e.func.attr in _VIEW_METHODS and _is_alias(e.func.value, alias):
+            return True
+        if ast.unparse(e.func) in _VIEW_FUNCS and any(_is_alias(a, alias) for a in e.args):
+            return True
+    if isinstance(e, (ast.Tuple, ast.List)):
+        return any(_is_alias(x, alias) for x in e.elts)
+    if isinstance(e, ast.IfExp):
+        return _is_alias(e.body, alias) or _is_alias(e.orelse, alias)
+    if isinstance(e, ast.Dict):
+        return any(_is_alias(x, alias) for x in e.values if x is not None)
+    return False
+
+
+def _tnames(t):
+    if isinstance(t, ast.Name):
+        return [t.id]
+    if isinstance(t, (ast.Tuple, ast.List)):
+        return [n for e in t.elts for n in _tnames(e)]
+    if isinstance(t, ast.Starred):
+        return _tnames(t.value)
+    return []
+
+
+def _root(e):
+    while isinstance(e, (ast.Attribute, ast.Subscript, ast.Starred)):
+        e = e.value
+    if isinstance(e, ast.Call) and isinstance(e.func, ast.Attribute):
+        return _root(e.func.value)
+    return e.id if isinstance(e, ast.Name) else None
+
+
+_MODULE_NAMES = {'np', 'numpy', 'scipy', 'opt'}
+
+
+def _fresh_default_blocks(fn, alias_of):
+    """ids of the statements inside `if X is None:` blocks that begin by rebinding X to a fresh object
+    (`theta = np.zeros(...)`): stores through X there go into that fresh object, not into the argument"""
+    skip = {}
+    for n in ast.walk(fn):
+        if isinstance(n, ast.If) and isinstance(n.test, ast.Compare) and isinstance(n.test.left, ast.Name) \
+                and len(n.test.ops) == 1 and isinstance(n.test.ops[0], ast.Is) \
+                and isinstance(n.test.comparators[0], ast.Constant) and n.test.comparators[0].value is None \
+                and n.body and isinstance(n.body[0], ast.Assign) and len(n.body[0].targets) == 1 \
+                and isinstance(n.body[0].targets[0], ast.Name) and n.body[0].targets[0].id == n.test.left.id \
+                and isinstance(n.body[0].value, ast.Call) \
+                and ast.unparse(n.body[0].value.func) in ('np.zeros', 'np.ones', 'np.empty') \
+                and not n.orelse:
+            for st in n.body[1:]:
+                for sub_ in ast.walk(st):
+                    skip[id(sub_)] = n.test.left.id
+    return skip
+
+
+def _store_sites(fn, pred):
+    """statements of fn that store through an expression e with pred(e)"""
+    sites = []
+    fresh = _fresh_default_blocks(fn, None)
+    for n in ast.walk(fn):
+        if id(n) in fresh and isinstance(n, ast.Assign) and len(n.targets) == 1 \
+                and isinstance(n.targets[0], ast.Subscript) and isinstance(n.targets[0].value, ast.Name) \
+                and n.targets[0].value.id == fresh[id(n)]:
+            continue
+        if isinstance(n, ast.AugAssign) and pred(n.target, True):
+            sites.append((n.lineno, ast.unparse(n)))
+        if isinstance(n, (ast.Assign, ast.AnnAssign)):
+            for t in (n.targets if isinstance(n, ast.Assign) else [n.target]):
+                for tt in ([t] if not isinstance(t, (ast.Tuple, ast.List)) else t.elts):
+                    if isinstance(tt, (ast.Subscript, ast.Attribute)) and pred(tt.value, False):
+                        sites.append((n.lineno, ast.unparse(n)))
+        if isinstance(n, ast.Delete):
+            for t in n.targets:
+                if isinstance(t, (ast.Subscript, ast.Attribute)) and pred(t.value, False):
+                    sites.append((n.lineno, ast.unparse(n)))
+        if isinstance(n, ast.Call):
+            if isinstance(n.func, ast.Attribute) and n.func.attr in _MUTATORS and pred(n.func.value, False) \
+                    and not (isinstance(n.func.value, ast.Name) and n.func.value.id in _MODULE_NAMES):
+                sites.append((n.lineno, ast.unparse(n)))      # `np.sort(x)` is a function, not a method
+            if ast.unparse(n.func) in _MUT_FUNCS and n.args and pred(n.args[0], False):
+                sites.append((n.lineno, ast.unparse(n)))
+            for k in n.keywords:
+                if k.arg == 'out' and pred(k.value, False):
+                    sites.append((n.lineno, ast.unparse(n)))
+    return sorted(set(sites))
+
+
+def _params(fn):
+    ps = [a.arg for a in fn.args.posonlyargs + fn.args.args + fn.args.kwonlyargs]
+    if fn.args.vararg:
+        ps.append(fn.args.vararg.arg)
+    if fn.args.kwarg:
+        ps.append(fn.args.kwarg.arg)
+    return ps
+
+
+def _writes_in(fn, where, outer_alias=()):
+    """stores into (views of) the parameters of fn; closures inherit the views of the enclosing function"""
+    alias = (set(_params(fn)) - _SCALAR_PARAMS) | set(outer_alias)
+    for _ in range(8):           # flow-insensitive closure
+        before = len(alias)
+        for n in ast.walk(fn):
+            if isinstance(n, ast.Assign) and _is_alias(n.value, alias):
+                for t in n.targets:
+                    alias.update(_tnames(t))
+            if isinstance(n, (ast.For, ast.comprehension)) and _is_alias(n.iter, alias):
+                alias.update(_tnames(n.target))
+            if isinstance(n, ast.NamedExpr) and _is_alias(n.value, alias):
+                alias.update(_tnames(n.target))
+        if len(alias) == before:
+            break
+
+    def pred(e, aug):
+        if aug and isinstance(e, ast.Name):
+            return e.id in alias          # `x -= m` on a view of an argument writes into it
+        return _is_alias(e, alias)
+    return [f'{where}:{ln}: {txt}' for ln, txt in _store_sites(fn, pred)]
+
+
+def _locals_of(fn):
+    loc = set(_params(fn))
+    for n in ast.walk(fn):
+        if isinstance(n, ast.Name) and isinstance(n.ctx, ast.Store):
+            loc.add(n.id)
+    return loc
+
+
+def _state_in(fn, where):
+    sites = []
+    for f_ in [n for n in ast.walk(fn) if isinstance(n, ast.FunctionDef)]:
+        for d in f_.decorator_list:
+            if ast.unparse(d) not in _OK_DECORATORS:
+                sites.append(f'{where}:{d.lineno}: decorator @{ast.unparse(d)}')
+        for d in f_.args.defaults + [k for k in f_.args.kw_defaults if k is not None]:
+            if not isinstance(d, (ast.Constant, ast.UnaryOp, ast.Name, ast.Attribute)):
+                sites.append(f'{where}:{d.lineno}: mutable default `{ast.unparse(d)}`')
+    glob = set()
+    for n in ast.walk(fn):
+        if isinstance(n, (ast.Global, ast.Nonlocal)):
+            sites.append(f'{where}:{n.lineno}: {ast.unparse(n)}')
+            glob.update(n.names)
+        if isinstance(n, ast.ClassDef):
+            sites.append(f'{where}:{n.lineno}: nested class {n.name}')
+    loc = _locals_of(fn) - glob          # includes the locals of nested closures (they die with the call)
+
+    def pred(e, aug):
+        r = _root(e)
+        return r is not None and r not in loc
+    sites += [f'{where}:{ln}: store through a non-local name: {txt}' for ln, txt in _store_sites(fn, pred)]
+    return sites
+
+
+_SCOPE_FILES = {            # file -> (None = every top-level function) | {class or '': [names]}
+    'model/fitter.py': None,
+    'util/pooling.py': None,
+    'model/model.py': {'Model': ['fit', 'to_dict'],
+                       'ModelFixed': ['predict', 'predict_rdm'], 'ModelSelect': ['predict', 'predict_rdm'],
+                       'ModelWeighted': ['predict', 'predict_rdm'],
+                       'ModelInterpolate': ['predict', 'predict_rdm']},
+    'util/rdm_utils.py': {'': ['_parse_nan_vectors']},
+    'util/matrix.py': {'': ['get_v', 'pairwise_contrast_sparse']},
+    'rdm/rdms.py': {'RDMs': ['get_vectors', 'get_matrices', 'subsample_pattern', '__getitem__', 'copy']},
+}
+_MODULE_LEVEL = ('model/fitter.py', 'util/pooling.py', 'model/model.py')
+
+
+def _scope():
+    """[(function node, label)] for every function a fit / prediction runs through, {file: tree}"""
+    out, trees = [], {}
+    for path, want in _SCOPE_FILES.items():
+        tree = _tree(path)
+        trees[path] = tree
+        if want is None:
+            for n in tree.body:
+                if isinstance(n, ast.FunctionDef):
+                    out.append((n, f'{path}:{n.name}'))
+                if isinstance(n, ast.ClassDef):
+                    for m_ in n.body:
+                        if isinstance(m_, ast.FunctionDef) and m_.name != '__init__':
+                            out.append((m_, f'{path}:{n.name}.{m_.name}'))
+            continue
+        for cls, names in want.items():
+            if cls:
+                cn = [n for n in tree.body if isinstance(n, ast.ClassDef) and n.name == cls]
+                if len(cn) != 1:
+                    raise Underivable(f'class {cls} not found in {path}')
+                body = cn[0].body
+            else:
+                body = tree.body
+            for name in names:
+                fn = [n for n in body if isinstance(n, ast.FunctionDef) and n.name == name]
+                if len(fn) != 1:
+                    raise Underivable(f'{path}: {cls + "." if cls else ""}{name} not found')
+                out.append((fn[0], f'{path}:{cls + "." if cls else ""}{name}'))
+    names = {lab.split(':')[1] for _, lab in out}
+    need = {'fit_regress', 'fit_regress_nn', 'fit_optimize', 'fit_optimize_positive', 'fit_select',
+            'fit_interpolate', '_loss', '_nn_least_squares', 'pool_rdm', 'Fitter.__call__'}
+    if not need <= names:
+        raise Underivable(f'functions {sorted(need - names)} not found')
+    return out, trees
+
+
+def _nested_writes(fn, lab):
+    sites = list(_writes_in(fn, lab))
+    # closures (`_loss_opt`, `loss_opt`): their own parameters and what they capture from the fitter
+    outer = set(_params(fn)) - _SCALAR_PARAMS
+    for n in ast.walk(fn):
+        if isinstance(n, ast.FunctionDef) and n is not fn:
+            sites += [s_ for s_ in _writes_in(n, f'{lab}.{n.name}', outer) if s_ not in sites]
+    return sites
+
+
+def _input_writes():
+    del WRITE_SITES[:]
+    fns, _ = _scope()
+    seen = set()
+    for fn, lab in fns:
+        for s_ in _nested_writes(fn, lab):
+            k_ = s_.split(':', 2)[0] + s_.split(':', 3)[2] if s_.count(':') >= 3 else s_
+            if s_ not in seen:
+                seen.add(s_)
+                WRITE_SITES.append(s_)
+    return str(len(WRITE_SITES))
+
+
+def _module_state():
+    del STATE_SITES[:]
+    fns, trees = _scope()
+    for path in _MODULE_LEVEL:
+        tree = trees[path]
+        for k, n in enumerate(tree.body):
+            if isinstance(n, (ast.Import, ast.ImportFrom, ast.FunctionDef)):
+                continue
+            if k == 0 and isinstance(n, ast.Expr) and isinstance(n.value, ast.Constant) \
+                    and isinstance(n.value.value, str):
+                continue
+            if isinstance(n, ast.ClassDef):
+                for d in n.decorator_list:
+                    STATE_SITES.append(f'{path}:{d.lineno}: class decorator @{ast.unparse(d)}')
+                for j, m_ in enumerate(n.body):
+                    if isinstance(m_, ast.FunctionDef):
+                        continue
+                    if j == 0 and isinstance(m_, ast.Expr) and isinstance(m_.value, ast.Constant):
+                        continue
+                    STATE_SITES.append(f'{path}:{m_.lineno}: statement in the body of class {n.name} '
+                                       f'`{ast.unparse(m_)[:60]}`')
+                continue
+            STATE_SITES.append(f'{path}:{n.lineno}: module-level statement `{ast.unparse(n)[:70]}`')
+    for fn, lab in fns:
+        STATE_SITES.extend(_state_in(fn, lab))
+    return str(len(STATE_SITES))
+
+
 # ------------------------------------------------------------------ derivations
 
 def _derive():
@@ -438,6 +729,15 @@ def _derive():
         return expr
     emit('n_param', ['kind', 'n_rdm'], n_param)
 
+    # ---- round 4: state that survives a call
+    emit('input_writes', [], _input_writes)
+    emit('module_state', [], _module_state)
+    out.append('# stores into arguments / self found by the analysis (input_writes counts these):')
+    out.extend('#   ' + x for x in WRITE_SITES)
+    out.append('# places that can keep something between calls (module_state counts these):')
+    out.extend('#   ' + x for x in STATE_SITES)
+    out.append('')
+
     text = '\n'.join(out)
     if not (os.path.exists(DERIVED) and open(DERIVED).read() == text):
         with open(DERIVED + '.tmp', 'w') as f:
@@ -483,4 +783,6 @@ LEAVES = [
     _leaf('weightedRdmDefault', 'weighted_rdm_default', {'j': 'Nat'}),
     _leaf('defaultFitterCode', 'default_fitter_code', {'kind': 'Nat'}, 'Nat'),
     _leaf('nParam', 'n_param', {'kind': 'Nat', 'n_rdm': 'Nat'}, 'Nat'),
+    _leaf('inputWrites', 'input_writes', {}, 'Nat'),
+    _leaf('moduleState', 'module_state', {}, 'Nat'),
 ]
